@@ -543,7 +543,7 @@ namespace c13
       "FEAT's process-global statics (MemoryPool, Statistics) are shared by the rank threads; they do not influence results",
       "patch->base dof identification uses exact vertex coordinates and Space::DofAssignment (the space layer is C15's subject)",
       "reductions are evaluated in rank order by the model; on the exact alphabet this cannot influence results"};
-    spec.deadline_quick_s = 170; spec.deadline_thorough_s = 1500;
+    spec.deadline_quick_s = 240; spec.deadline_thorough_s = 3000;
 
     return verif::run(spec, argc, argv, [&](verif::Ctx& c)
     {
